@@ -15,10 +15,11 @@ import time
 ROOT = os.path.dirname(os.path.dirname(os.path.abspath(__file__)))
 REPO = os.environ.get("VERIF_REPO", "/repo")
 SPEC = os.path.join(ROOT, "spec")
-BUILD = os.path.join(ROOT, ".build")
+# VERIF_BUILD / VERIF_EVID / VERIF_REPLAY: only bin/try_mutant sets them, to run a check against a scratch tree next to other runs
+BUILD = os.environ.get("VERIF_BUILD") or os.path.join(ROOT, ".build")
 WORK = os.path.join(ROOT, ".work")
-EVID = os.path.join(ROOT, "evidence")
-REPLAY = os.path.join(ROOT, "replay")
+EVID = os.environ.get("VERIF_EVID") or os.path.join(ROOT, "evidence")
+REPLAY = os.environ.get("VERIF_REPLAY") or os.path.join(ROOT, "replay")
 NCPU = os.cpu_count() or 4
 JAVA_CP = "/opt/veriftools/tla/tla2tools.jar:/opt/veriftools/tla/CommunityModules-deps.jar"
 
